@@ -170,7 +170,7 @@ def main():
 
     # ---- 1 translate -------------------------------------------------------------------------
     translate_info = {}
-    if pid in TRANSLATED or os.path.exists(os.path.join(VERIF, "tools", "translate.py")):
+    if True:
         tp = os.path.join(VERIF, "tools", "translate.py")
         if os.path.exists(tp):
             with Lock("lake.lock"):
@@ -186,7 +186,11 @@ def main():
                     translate_info = {}
 
     # ---- 2 lake build ------------------------------------------------------------------------
-    theorems = list_theorems(props_path) if os.path.exists(props_path) else []
+    props_files = [props_path] if os.path.exists(props_path) else []
+    sub = os.path.join(LEAN, "EG", "Props", pid)
+    if os.path.isdir(sub):
+        props_files += sorted(os.path.join(sub, f) for f in os.listdir(sub) if f.endswith(".lean"))
+    theorems = [t for pf in props_files for t in list_theorems(pf)]
     lean_ok = True
     with Lock("lake.lock"):
         if tier == "thorough" and not replay:
@@ -423,7 +427,7 @@ def main():
             "checker_cmd": f"cd /verif/lean && lake build {props_mod} && lake env lean <generated #print axioms file>" + (f" && lake env leanchecker {props_mod}" if tier == "thorough" else ""),
             "trusted_base": trusted,
             "theorems": [{"name": n, "axioms": axioms.get(n)} for (n, _) in theorems],
-            "unproved_subclaims": unproved_subclaims(props_path) if os.path.exists(props_path) else [],
+            "unproved_subclaims": [u for pf in props_files for u in unproved_subclaims(pf)],
             "broken_obligations": broken_theorems,
             "evaluations": dist.get("evaluations", 0),
             "oracle_checks": dist.get("oracle_checks", 0),
